@@ -282,7 +282,25 @@ func keyBits(key *felt.Felt, h int) string {
 }
 
 // the model verifier on a concrete set; kind = v2 | v2s | v1 | vw
+// putNorm: the set as utils.OrderedSet holds it when the entries are Put in order (an entry whose key
+// is already present replaces that entry in place). The implementations receive their sets through
+// Put (toTrie2 / toLegacy); the model receives the same normalised list.
+func putNorm(p pset) pset {
+	pos := map[string]int{}
+	var out pset
+	for _, e := range p {
+		if i, ok := pos[e.Key]; ok {
+			out[i] = e
+			continue
+		}
+		pos[e.Key] = len(out)
+		out = append(out, e)
+	}
+	return out
+}
+
 func verifyModel(or *hx.Oracle, kind string, root felt.Felt, kbits string, p pset, hf crypto.HashFn) string {
+	p = putNorm(p)
 	var sb strings.Builder
 	fmt.Fprintf(&sb, "verify %s %s %s", kind, fhex(&root), kbits)
 	for _, e := range p {
